@@ -264,7 +264,7 @@ func runTypeCases(t *testing.T, rec *ev.Recorder, test string, types []*MsgType,
 		rec.Check(tb, test, c, oracle(c))
 	}
 	for _, mt := range mine {
-		for i, v := range sweepValues(mt.Desc) {
+		for i, v := range sweepValues(mt.Desc, mt.Info.Runtime) {
 			_, b := canon(v)
 			one(t, &GCase{Type: mt.Key(), Value: b}, "sweep")
 			if i%4 == 0 {
@@ -274,6 +274,8 @@ func runTypeCases(t *testing.T, rec *ev.Recorder, test string, types []*MsgType,
 	}
 	ev.Rapid(t, nRandom, salt, func(rt *rapid.T) {
 		mt := rapid.SampledFrom(mine).Draw(rt, "type")
+		o := o
+		o.runtime = mt.Info.Runtime
 		v := genDyn(rt, mt.Desc, 3, o)
 		_, b := canon(v)
 		c := &GCase{Type: mt.Key(), Value: b, EmptyContainers: rapid.IntRange(0, 7).Draw(rt, "emptycont") == 0}
@@ -298,6 +300,7 @@ func replayGCase(prop string, raw json.RawMessage, oracle func(*GCase) *ev.Failu
 func TestC04(t *testing.T) {
 	rec := ev.New("C04", ruleValues+"oracle: Size()==len(Marshal()), MarshalTo fills an exactly-sized sentinel-backed buffer with the same bytes, Size is stable, no call panics; non-trivial = at least one field present or a present-but-empty container; distinct by (type, reference encoding)")
 	defer rec.Write()
+	useRecorder(rec)
 	defer func() { t.Log(rec.Summary()); fmt.Print(rec.SurveyReport()) }()
 	types := fmTypes(nil)
 	rec.Extra("types", len(types))
@@ -307,6 +310,7 @@ func TestC04(t *testing.T) {
 func TestC05(t *testing.T) {
 	rec := ev.New("C05", ruleValues+"oracle: reference (dynamicpb, schema only) decode of Marshal() output equals the original incl. presence and unknown bytes, and at every nesting level the set of field numbers on the wire equals the set of populated fields (no phantom defaults, nothing dropped); non-trivial as C04")
 	defer rec.Write()
+	useRecorder(rec)
 	defer func() { t.Log(rec.Summary()); fmt.Print(rec.SurveyReport()) }()
 	types := fmTypes(nil)
 	rec.Extra("types", len(types))
